@@ -11,10 +11,15 @@ import (
 // c20Dev: a device with arbitrary contents (MemDev.UF) over which a few regions at CONCRETE offsets
 // hold bytes built by the harness (inode table slot, a directory block). Reads that start exactly at a
 // region are served from it; every other read sees the arbitrary bytes.
+//
+// Everything below metaEnd is the metadata area of the fixture: apart from the regions nothing there is
+// a structure of the image, so a read that lands there (wrong inode slot, wrong table, wrong directory
+// block) is reported at once instead of letting the library decode arbitrary bytes.
 type c20Dev struct {
 	vpdev.MemDev
 	regOff  []int64
 	regData [][]byte
+	metaEnd int64
 }
 
 func (d *c20Dev) ReadAt(p []byte, off int64) (int, error) {
@@ -23,6 +28,10 @@ func (d *c20Dev) ReadAt(p []byte, off int64) (int, error) {
 			copy(p, d.regData[i])
 			return len(p), nil
 		}
+	}
+	if off < d.metaEnd {
+		vp.Assert(false, "metadata is read from where the image holds it (inode slot, table block, directory block)")
+		return 0, vpdev.ErrOther
 	}
 	return d.MemDev.ReadAt(p, off)
 }
@@ -46,6 +55,7 @@ func c20Fixture(bs uint32, csum bool, raw []byte) (*FileSystem, *c20Dev, *superb
 	dev.Size = -1
 	dev.UF = true
 	dev.NoWrites = true
+	dev.metaEnd = c20DataFrom * int64(bs)
 	dev.regOff = append(dev.regOff, int64(c20ITable)*int64(bs)+int64(c20Ino-1-c20IPG)*256)
 	dev.regData = append(dev.regData, raw)
 	fs := &FileSystem{
@@ -250,7 +260,7 @@ func VP_C20_unsupported_blockmap_dir() {
 	}
 	raw[0x22] &^= 0x08 // EXT4_EXTENTS_FL clear; EXT4_INLINE_DATA_FL (0x10000000) arbitrary
 	c20SealInode(raw, sb.checksumSeed, c20Ino)
-	vp.KnownPanic("KF-C20-5", "ext4.go:1712")
+	vp.KnownPanic("KF-C20-5", "FileSystem).readDirectory)") // nil extent tree: in.extents.blocks(fs)
 	vp.NoPanic()
 	res, err := fs.readDirectory(c20Ino)
 	vp.AllowPanic()
